@@ -56,12 +56,15 @@ const (
 	lRemove
 	lFind
 	nLetters
+	// lNew is not part of the main alphabet: it is used by the supplementary enumeration over
+	// {Begin, Commit, Rollback, NewBtree} (store creation attempted in every mode and lifecycle state).
+	lNew = nLetters
 )
 
-var letterNames = [...]string{"Begin", "Commit", "Rollback", "Phase1Commit", "Phase2Commit", "Close", "OpenBtree", "Add(4)", "Update(2)", "Remove(3)", "Find(1)"}
+var letterNames = [...]string{"Begin", "Commit", "Rollback", "Phase1Commit", "Phase2Commit", "Close", "OpenBtree", "Add(4)", "Update(2)", "Remove(3)", "Find(1)", "NewBtree(t)"}
 
 func (l letter) String() string { return letterNames[l] }
-func (l letter) isStoreOp() bool { return l >= lAdd }
+func (l letter) isStoreOp() bool { return l >= lAdd && l <= lFind }
 func (l letter) isWrite() bool   { return l == lAdd || l == lUpdate || l == lRemove }
 
 func parseLetter(s string) letter {
@@ -569,15 +572,32 @@ func (e *env) runCase(mode sop.TransactionMode, seq []letter) *caseResult {
 	}
 	writeSucceededRO := false
 	// lifecycle features of the sequence that name the input class of a persisted-effect violation
-	reexecP1, writeAfterP1 := false, false
+	reexecP1, writeAfterP1, usedNew := false, false, false
 	lastLifecycle := "none"
 
+	rcTag := func() string {
+		switch {
+		case reexecP1 && writeAfterP1:
+			return "phase1-reexecuted+write-after-phase1"
+		case reexecP1:
+			return "phase1-reexecuted"
+		case writeAfterP1:
+			return "write-after-phase1"
+		case usedNew:
+			return "newbtree"
+		}
+		return "none"
+	}
 	doCall := func(l letter, judged bool) bool {
 		cr := callRes{Call: l.String()}
 		var o int
+		gcvErr := ""
 		before := setString(set)
-		if !l.isStoreOp() && l != lOpen {
+		if !l.isStoreOp() && l != lOpen && l != lNew {
 			lastLifecycle = l.String()
+		}
+		if l == lNew {
+			usedNew = true
 		}
 		if (l == lP1 || l == lCommit) && strings.Contains(before, "phase1-done") {
 			reexecP1 = true
@@ -609,6 +629,8 @@ func (e *env) runCase(mode sop.TransactionMode, seq []letter) *caseResult {
 				if err == nil && b != nil {
 					handle = b
 				}
+			case lNew:
+				_, err = infs.NewBtree[int, string](ctx, sop.StoreOptions{Name: "t", SlotLength: 4, IsUnique: true, IsValueDataInNodeSegment: true}, tx, nil)
 			case lAdd:
 				cr.OK, err = handle.Add(ctx, 4, "a4")
 			case lUpdate:
@@ -616,9 +638,13 @@ func (e *env) runCase(mode sop.TransactionMode, seq []letter) *caseResult {
 			case lRemove:
 				cr.OK, err = handle.Remove(ctx, 3)
 			case lFind:
+				// two store operations: the outcome of Find is judged by itself, GetCurrentValue separately
 				cr.OK, err = handle.Find(ctx, 1, false)
 				if cr.OK && err == nil {
-					cr.Val, err = handle.GetCurrentValue(ctx)
+					var gerr error
+					if cr.Val, gerr = handle.GetCurrentValue(ctx); gerr != nil {
+						gcvErr = gerr.Error()
+					}
 				}
 			}
 			switch {
@@ -658,8 +684,18 @@ func (e *env) runCase(mode sop.TransactionMode, seq []letter) *caseResult {
 			add(fmt.Sprintf("%s|%s|%s|%s", kind, mn, l, before), fmt.Sprintf("call #%d %s returned ok=%v err=%q val=%q in lifecycle state {%s}: %s", len(res.Calls)+1, l, cr.OK, cr.Err, cr.Val, before, reason))
 			// continue with the state unchanged so that the persisted effect is still judged
 			nx = set
-		} else if reason == "" && !definitelyInTx && (l.isStoreOp() || l == lOpen) && o != oSuccess {
+		} else if reason == "" && !definitelyInTx && (l.isStoreOp() || l == lOpen || l == lNew) && o != oSuccess {
 			res.NOutsideRejected++
+		}
+		if gcvErr != "" {
+			// Find succeeded, the following GetCurrentValue returned an error: a second store operation that failed
+			cr.Err = "GetCurrentValue: " + gcvErr
+			var n2 []mstate
+			for _, s := range nx {
+				n, _ := next(s, lFind, oError, len(acked))
+				n2 = append(n2, n...)
+			}
+			nx = dedupe(n2)
 		}
 		if l == lRollback && o == oError && strings.Contains(before, "done-committed") {
 			res.RollbackAfterCommitRejected = true
@@ -674,7 +710,7 @@ func (e *env) runCase(mode sop.TransactionMode, seq []letter) *caseResult {
 					// auxiliary sanity check of the acknowledged result against the in-transaction view
 					_, present := pending[map[letter]int{lAdd: 4, lUpdate: 2, lRemove: 3}[l]]
 					if definitelyInTx && present == (l == lAdd) {
-						add(fmt.Sprintf("aux-op-result|%s|%s", mn, l), fmt.Sprintf("call #%d %s returned true although the transaction's own view %v says it cannot", len(res.Calls)+1, l, pending))
+						add(fmt.Sprintf("aux-op-result|%s|rc=%s|%s", mn, rcTag(), l), fmt.Sprintf("call #%d %s returned true although the transaction's own view %v says it cannot", len(res.Calls)+1, l, pending))
 					}
 					acked = append(acked, l)
 					if strings.Contains(before, "phase1-done") {
@@ -692,9 +728,9 @@ func (e *env) runCase(mode sop.TransactionMode, seq []letter) *caseResult {
 					writeSucceededRO = true
 					res.NWriteAckedRO++
 				}
-			case l == lFind:
+			case l == lFind && gcvErr == "":
 				if want, ok := pending[1]; definitelyInTx && !writeSucceededRO && (!ok || want != cr.Val) {
-					add(fmt.Sprintf("aux-op-result|%s|%s", mn, l), fmt.Sprintf("call #%d Find(1)+GetCurrentValue returned %q, the transaction's own view is %v", len(res.Calls)+1, cr.Val, pending))
+					add(fmt.Sprintf("aux-op-result|%s|rc=%s|%s", mn, rcTag(), l), fmt.Sprintf("call #%d Find(1)+GetCurrentValue returned %q, the transaction's own view is %v", len(res.Calls)+1, cr.Val, pending))
 				}
 			}
 		} else if l.isWrite() && mode != sop.ForWriting && definitelyInTx {
@@ -722,27 +758,19 @@ func (e *env) runCase(mode sop.TransactionMode, seq []letter) *caseResult {
 	}
 
 	class := func() string {
-		rc := "none"
-		switch {
-		case reexecP1 && writeAfterP1:
-			rc = "phase1-reexecuted+write-after-phase1"
-		case reexecP1:
-			rc = "phase1-reexecuted"
-		case writeAfterP1:
-			rc = "write-after-phase1"
-		}
-		return fmt.Sprintf("%s|rc=%s|store=slot%d-%s|last=%s|len=%d", mn, rc, e.spec.Slot, e.spec.Place, lastLifecycle, len(seq))
+		return fmt.Sprintf("%s|rc=%s|store=slot%d-%s|last=%s|len=%d", mn, rcTag(), e.spec.Slot, e.spec.Place, lastLifecycle, len(seq))
 	}
 	checkUntouched := func(when string) {
 		fd, dd := e.snap.diffAndRepair(sopenv.Dir)
 		if mode == sop.ForWriting {
 			return
 		}
-		if len(fd) > 0 {
-			add(fmt.Sprintf("readonly-changed-disk|%s", class()), fmt.Sprintf("%s: a %s transaction changed store data on disk: %v", when, mn, fd))
-		}
-		if len(dd) > 0 {
-			add(fmt.Sprintf("readonly-changed-dirs|%s", class()), fmt.Sprintf("%s: a %s transaction changed the directory tree: %v", when, mn, dd))
+		// when: "in-flight" = the transaction was still open when the folder was compared, "after-end" = it had ended
+		switch {
+		case len(fd) > 0:
+			add(fmt.Sprintf("readonly-changed-disk|%s", strings.Replace(class(), "|store=", "|when="+when+"|store=", 1)), fmt.Sprintf("%s: a %s transaction changed store data on disk: %v %v", when, mn, fd, dd))
+		case len(dd) > 0:
+			add(fmt.Sprintf("readonly-changed-dirs|%s", strings.Replace(class(), "|store=", "|when="+when+"|store=", 1)), fmt.Sprintf("%s: a %s transaction changed the directory tree: %v", when, mn, dd))
 		}
 	}
 
@@ -758,7 +786,13 @@ func (e *env) runCase(mode sop.TransactionMode, seq []letter) *caseResult {
 	}
 	res.HandleOpen = handle != nil
 	if mode != sop.ForWriting {
-		checkUntouched("right after the sequence")
+		open := false
+		invoke(func() { open = tx.HasBegun() })
+		if open {
+			checkUntouched("in-flight")
+		} else {
+			checkUntouched("after-end")
+		}
 	}
 	// epilogue: an undecided transaction is ended by Rollback (what happens to in-flight state is not this property's business)
 	epilogue := false
@@ -795,7 +829,7 @@ func (e *env) runCase(mode sop.TransactionMode, seq []letter) *caseResult {
 	}
 	res.CommitOKWithChanges = committedWithChanges
 	if mode != sop.ForWriting && (epilogue || !alive) {
-		checkUntouched("after the transaction ended")
+		checkUntouched("after-end")
 	}
 	// observe with cold caches in a fresh transaction
 	sopenv.ResetCaches()
@@ -961,6 +995,37 @@ func (e *env) explore(run *ev.Run, mode sop.TransactionMode, a, b letter, depth 
 	}
 }
 
+// exploreNew: every sequence up to the given length over {Begin, Commit, Rollback, NewBtree(t)}.
+func (e *env) exploreNew(run *ev.Run, mode sop.TransactionMode, depth int) {
+	sub := []letter{lBegin, lCommit, lRollback, lNew}
+	frontier := [][]letter{{}}
+	for d := 1; d <= depth; d++ {
+		var nextF [][]letter
+		for _, pre := range frontier {
+			for _, l := range sub {
+				seq := append(append([]letter(nil), pre...), l)
+				nextF = append(nextF, seq)
+				hasNew := false
+				for _, x := range seq {
+					if x == lNew {
+						hasNew = true
+					}
+				}
+				if !hasNew {
+					continue // covered by the main enumeration
+				}
+				r := e.runGuarded(run, mode, seq)
+				if r.Hung {
+					return
+				}
+				e.record(run, mode, seq, r)
+				run.Add("supplementary_newbtree_cases", 1)
+			}
+		}
+		frontier = nextF
+	}
+}
+
 func doReplay(file string) {
 	b, err := os.ReadFile(file)
 	if err != nil {
@@ -1033,7 +1098,11 @@ func main() {
 		var v, m, a, b, d int
 		fmt.Sscanf(job, "%d:%d:%d:%d:%d", &v, &m, &a, &b, &d)
 		e := newEnv(storeVariants[v])
-		e.explore(run, modes[m], letter(a), letter(b), d)
+		if a < 0 {
+			e.exploreNew(run, modes[m], d)
+		} else {
+			e.explore(run, modes[m], letter(a), letter(b), d)
+		}
 		sopenv.Cleanup()
 		run.EmitPartial()
 	}
@@ -1051,6 +1120,9 @@ func main() {
 			}
 		}
 	}
+	for m := range modes {
+		jobs = append(jobs, fmt.Sprintf("0:%d:-1:0:%d", m, depth-1))
+	}
 	dl := 20 * time.Minute
 	if run.Thorough() {
 		dl = 2 * time.Hour
@@ -1062,10 +1134,11 @@ func main() {
 	run.Set("modes", []string{"ForWriting", "ForReading", "NoCheck"})
 	run.Set("max_sequence_length", depth)
 	run.Set("rule", "every call sequence of length 1..max over the alphabet on one transaction object, per mode, enumerated exactly once breadth-first; canonical form: item operations only once an OpenBtree returned a handle (they cannot be called otherwise), OpenBtree only while no handle exists; each case starts from a byte-identical restored store folder {1:v1,2:v2,3:v3}, cold caches, deterministic UUIDs; an undecided transaction is ended by an epilogue Rollback before the store is read back cold; distinct_nontrivial = sequences (all distinct by construction) of length >= 2 in which Begin succeeded")
+	run.Set("supplementary", "every sequence of length <= max-1 over {Begin, Commit, Rollback, NewBtree(t)} that contains NewBtree, per mode (store creation is a store operation: allowed only inside Begin..end, and in ForReading / NoCheck it must leave the folder byte-identical)")
 	run.Assumption("single transaction object and single thread per case; fault-free environment (in-memory L2 cache, tmpfs)")
 	run.Assumption("keys fixed per operation: Add(4), Update(2), Remove(3), Find(1)+GetCurrentValue on the unique store {1,2,3}; stores: slot length 4 with values in the node at full depth, slot length 4 with actively persisted values at depth-1; thorough also slot length 2 with values in separate segments at depth-1")
 	run.Assumption("statement says which calls MAY succeed: return values of lifecycle calls are judged only where the statement is explicit (Rollback after a successful commit must fail; store operations outside Begin..end must return an error or false); everything else is judged by the persisted effect: store content read cold must be the content before, or, iff a ForWriting Commit / Phase2Commit returned nil, the content with the writes acknowledged up to a Phase1Commit/Commit applied exactly once")
 	run.Assumption("a write acknowledged between Phase1Commit and Phase2Commit may or may not be part of the commit (the statement does not say)")
-	run.Assumption("ForReading / NoCheck: every file under the store folder except translogs/ is compared byte by byte with the template right after the sequence and after the transaction ended; file times and modes ignored")
+	run.Assumption("ForReading / NoCheck: every file under the store folder except translogs/ is compared byte by byte with the template right after the sequence (when=in-flight if the transaction is still open then) and after the epilogue Rollback ended it (when=after-end); file times and modes ignored")
 	run.Finish()
 }
